@@ -34,7 +34,6 @@ const symPkg = "0chain.net/zzverif/sym"
 // packages whose functions are no-ops returning zero values
 var noopPkgs = []string{
 	"go.uber.org/zap",
-	"github.com/rcrowley/go-metrics",
 	"github.com/0chain/common/core/logging",
 	"0chain.net/core/metric",
 	"log",
@@ -102,6 +101,9 @@ func findExternal(fn *ssa.Function) externalFn {
 					break
 				}
 			}
+		}
+		if e == nil && fnPkgPath(fn) == "github.com/rcrowley/go-metrics" {
+			e = metricsExternal(fn)
 		}
 		if e == nil && strings.HasPrefix(name, "(*sync/atomic.Pointer[") {
 			e = atomicPointerMethod(fn.Name())
@@ -888,4 +890,28 @@ func atomicPointerMethod(name string) externalFn {
 		}
 	}
 	return nil
+}
+
+// metricsExternal: go-metrics constructors return the library's own Nil* no-op objects;
+// everything else in that package that is not a Nil* method is a no-op.
+func metricsExternal(fn *ssa.Function) externalFn {
+	sig := fn.Signature
+	if sig.Recv() != nil {
+		rt := sig.Recv().Type().String()
+		if strings.Contains(rt, "metrics.Nil") {
+			return nil // interpret the real no-op method
+		}
+		return func(fr *frame, args []value) value { return zeroResults(fr) }
+	}
+	if sig.Results().Len() == 1 {
+		if n, ok := sig.Results().At(0).Type().(*types.Named); ok {
+			if _, isIface := n.Underlying().(*types.Interface); isIface && fn.Pkg != nil {
+				if nt := fn.Pkg.Type("Nil" + n.Obj().Name()); nt != nil {
+					t := nt.Type()
+					return func(fr *frame, args []value) value { return iface{t: t, v: zero(t)} }
+				}
+			}
+		}
+	}
+	return func(fr *frame, args []value) value { return zeroResults(fr) }
 }
